@@ -37,6 +37,7 @@ type chain struct {
 	Aux       string                                                   // contents of an auxiliary virtual file "@L" (join left file)
 	Batch     []int                                                    // explicit batch sizes (else 1..N+1)
 	Seeded    bool
+	FailsFrom int  // > 0: the chain fails at its FailsFrom-th record: with that many records EVERY schedule and batch size must fail (stdout of a failing run is not compared), with fewer every one must succeed
 	GenIn     bool // input comes from the --igen pseudo-reader: no files, no -n
 	TeePrefix bool // tee file: only "is a prefix of the input containing the passed records" is asserted
 }
@@ -309,6 +310,11 @@ func chains(quick bool, n int) []chain {
 	add(chain{Args: S("fill-down -a -f g then sec2gmt i")})
 	add(chain{Args: S("count then put $j=1")})
 	add(chain{Args: S("group-by g then head -n 1")})
+	// "a run that fails under one setting fails under all": the failing record is reached in every schedule (no early exit
+	// in these chains), so every schedule and every batch size must fail
+	add(chain{Args: []string{"put", "$y = asserting_int($g)"}, FailsFrom: 1})
+	add(chain{Args: []string{"put", "if (NR == 2) {$y = asserting_null($i)}"}, FailsFrom: 2})
+	add(chain{Args: []string{"cat", "then", "put", "-q", "if (NR == 3) {$y = asserting_null($i)} emit $*", "then", "cat"}, FailsFrom: 3})
 	// a look-back window keeps reading records it has already passed on: the next verb's writes must not reach it
 	add(chain{Args: []string{"step", "-a", "slwin_1_0,shift_lag", "-f", "i", "then", "put", "$i=$i*1000"}, Name: "step -a slwin_1_0,shift_lag -f i then put $i=$i*1000"})
 	add(chain{Args: []string{"fill-down", "-a", "-f", "g", "then", "put", `$g=$g."y"`}, Name: `fill-down -a -f g then put $g=$g."y"`})
@@ -448,6 +454,9 @@ func (c *config) spec(dir string) vf.ExploreSpec {
 			if err != nil {
 				e = err.Error()
 			}
+			if c.Chain.FailsFrom > 0 && err != nil {
+				return "FAILED"
+			}
 			return "err=" + e + "\nstdout=" + out
 		},
 		After: func(o string, r *verifrt.Result) string {
@@ -530,10 +539,33 @@ func exploreConfig(w *vf.Worker, c *config, dir string) []string {
 	if r.Horizons > 0 {
 		w.Violation("horizon:"+key, fmt.Sprintf("step horizon exceeded in %d executions of %s (non-termination)", r.Horizons, key), rp(r.HorizonAt))
 	}
+	failedExits := 0
 	for f, n := range r.Faults {
+		if c.Chain.FailsFrom > 0 && strings.HasPrefix(f, "FAULT exit(") && !strings.HasPrefix(f, "FAULT exit(0)") {
+			failedExits += n // the expected failure, taken through a library os.Exit in a verb goroutine
+			continue
+		}
 		w.Violation("fault:"+key+":"+trunc(f, 80), fmt.Sprintf("%s in %d executions of %s", f, n, key), rp(r.FaultAt[f]))
 	}
 	outs := r.OutcomeList()
+	if failedExits > 0 {
+		has := false
+		for _, o := range outs {
+			has = has || o == "FAILED"
+		}
+		if !has {
+			outs = append([]string{"FAILED"}, outs...)
+		}
+	}
+	if c.Chain.FailsFrom > 0 {
+		mustFail := len(c.In.Recs) >= c.Chain.FailsFrom
+		for _, o := range outs {
+			if (o == "FAILED") != mustFail {
+				w.Violation("fails-under-some-settings-only:"+key, fmt.Sprintf("%s: the chain fails at record %d and the input has %d records, so every schedule must %s; but some execution ends with %q", key, c.Chain.FailsFrom, len(c.In.Recs), map[bool]string{true: "fail", false: "succeed"}[mustFail], trunc(o, 200)),
+					map[string]any{"chain": c.Chain.Name, "input": c.In.Name, "b": c.B, "schedule": r.Witness[o]})
+			}
+		}
+	}
 	if os.Getenv("VERIF_C04_DEBUG") != "" {
 		df, _ := os.OpenFile(os.Getenv("VERIF_C04_DEBUG"), os.O_APPEND|os.O_CREATE|os.O_WRONLY, 0644)
 		fmt.Fprintf(df, "DEBUG %s: execs=%d completed=%d cut=%d states=%d outcomes=%d\n", key, r.Execs, r.Completed, r.Cut, r.States, len(outs))
@@ -622,6 +654,9 @@ func enumerate(quick bool) (pairs [][]*config) {
 			if (ch.NoIn || ch.GenIn) && in.Name != inputs[0].Name {
 				continue
 			}
+			if in.Fmt == "nidx" && ch.FailsFrom > 0 {
+				continue // the failing expressions name the fields i and g
+			}
 			if in.Fmt == "nidx" && (ch.Ref != nil || strings.Contains(ch.Name, "-g")) {
 				ch.Ref = nil // positional field names: singleton law, deadlock and termination only
 				if strings.Contains(ch.Name, "-g") {
@@ -653,9 +688,9 @@ func enumerate(quick bool) (pairs [][]*config) {
 			if in.Fmt != "dkvp" && !(strings.HasPrefix(ch.Name, "cat") || strings.HasPrefix(ch.Name, "head -n 1") || strings.HasPrefix(ch.Name, "head -n 2 then head") || ch.Name == "tac" || strings.HasPrefix(ch.Name, "tee")) {
 				continue // other readers: the reader-facing chains only
 			}
-			if quick && map[string]bool{"dkvpx": true, "yaml": true, "markdown": true, "dcf": true, "recutils": true, "barred": true}[in.Fmt] &&
+			if (quick || strings.Contains(in.Name, ":files=2")) && map[string]bool{"dkvpx": true, "yaml": true, "markdown": true, "dcf": true, "recutils": true, "barred": true}[in.Fmt] &&
 				!map[string]bool{"cat": true, "head -n 1": true, "cat then head -n 1": true, "tee @T then head -n 1": true, "head -n 2 then head -n 1": true, "tac": true}[ch.Name] {
-				continue // quick tier: the less common readers run the core reader-facing chains only
+				continue // the less common readers run the core reader-facing chains only (quick tier; two-file N=5 inputs in the thorough tier)
 			}
 			bs := ch.Batch
 			if bs == nil {
